@@ -313,7 +313,9 @@ class ExcelInPython:
             case 1:
                 return self._match(lookup_value, lookup_array, match_mode)
             case -1:
-                return self._match(lookup_value, lookup_array[::-1], match_mode)
+                # Поиск с конца: индекс в перевернутом списке переводим в индекс исходного диапазона
+                index = self._match(lookup_value, lookup_array[::-1], match_mode)
+                return len(lookup_array) - index + 1 if isinstance(index, int) else index
             case 2:
                 index = self._binary_search(lookup_array, lookup_value)[output_value]
                 return index + 1 if index != -1 else '#N/A'
